@@ -524,7 +524,7 @@ func (x *e1) checkHangs(phase string) {
 		x.res.probe("peer_close_unnoticed_behind_unread_message")
 	}
 	if stalledNow && (connClose || trClose || (serveCancel && !x.prog.Cfg.SoftS)) && len(relevant) > 0 {
-		x.viol("close-hang", fmt.Sprintf("blocked-forever after close calls=[%s]", describeSet(relevant)),
+		x.viol("close-hang", fmt.Sprintf("blocked-forever after close calls=[%s]; srv.manageStreams@%s srv.serveone@%s", describeSet(relevant), x.whereRole("srv.manageStreams"), x.whereRole("srv.serveone")),
 			fmt.Sprintf("phase=%s (stalled) census=%v lib=%v", phase, calls, x.libCensus()))
 	}
 	if stalledNow {
@@ -536,7 +536,7 @@ func (x *e1) checkHangs(phase string) {
 			fmt.Sprintf("phase=%s census=%v lib=%v", phase, calls, x.libCensus()))
 	}
 	if (x.closeStep > 0 || x.transportClosedByHarness()) && len(relevant) > 0 {
-		x.viol("close-hang", fmt.Sprintf("blocked-forever after close calls=[%s]", describe(relevant)),
+		x.viol("close-hang", fmt.Sprintf("blocked-forever after close calls=[%s]; srv.manageStreams@%s srv.serveone@%s", describe(relevant), x.whereRole("srv.manageStreams"), x.whereRole("srv.serveone")),
 			fmt.Sprintf("phase=%s census=%v lib=%v", phase, calls, x.libCensus()))
 	}
 	// peer side of a cancelled rpc: once everything is delivered the handler
@@ -981,7 +981,7 @@ func (x *e1) checkFaultContainment() {
 		if !fault {
 			o = "close-hang"
 		}
-		x.viol(o, "ServeOne has not returned after the transport failed or was closed", strings.Join(x.libCensus(), " "))
+		x.viol(o, "ServeOne has not returned after the transport failed or was closed; srv.manageStreams@"+x.whereRole("srv.manageStreams"), strings.Join(x.libCensus(), " "))
 	}
 	if x.closeCalls > x.closeDone {
 		x.viol("close-hang", "Conn.Close did not return", strings.Join(x.libCensus(), " "))
